@@ -556,6 +556,7 @@ namespace bloch::runtime {
         m_heap.clear();
         m_pendingArgs.clear();
         m_pendingObjects.clear();
+        m_pendingDestructorError = nullptr;
         m_currentClassCtx = nullptr;
         m_inStaticContext = false;
         m_inConstructor = false;
@@ -597,6 +598,11 @@ namespace bloch::runtime {
         }
 #endif
         runCycleCollector();
+        if (m_pendingDestructorError) {
+            std::exception_ptr err = m_pendingDestructorError;
+            m_pendingDestructorError = nullptr;
+            std::rethrow_exception(err);
+        }
         // Ensure warnings appear before any normal echo output
         if (m_warnOnExit)
             warnUnmeasured();
@@ -1791,6 +1797,11 @@ namespace bloch::runtime {
         BLOCH_VERIF_POINT("exec.poll", &m_gcRequested);
         if (m_gcRequested.load())
             runCycleCollector();
+        if (m_pendingDestructorError) {
+            std::exception_ptr err = m_pendingDestructorError;
+            m_pendingDestructorError = nullptr;
+            std::rethrow_exception(err);
+        }
         if (!s)
             return;
         auto isTruthy = [](const Value& v) {
@@ -2453,7 +2464,14 @@ namespace bloch::runtime {
                                  "cannot instantiate static or abstract class '" + cls->name + "'");
             }
             auto deleter = [this](Object* obj) {
-                destroyObject(obj, !obj->skipDestructor);
+                try {
+                    destroyObject(obj, !obj->skipDestructor);
+                } catch (...) {
+                    // deleters run inside noexcept destructors (and possibly while another
+                    // error unwinds): never let an exception out of here
+                    if (!m_pendingDestructorError)
+                        m_pendingDestructorError = std::current_exception();
+                }
                 delete obj;
             };
             auto obj = std::shared_ptr<Object>(new Object{}, deleter);
